@@ -11,7 +11,7 @@ use serde_json::json;
 use tls_parser::nom;
 use tls_parser::*;
 
-pub const RULE: &str = "reference encodings of ServerDHParams (field lengths 0,1,255,256,65535 and random), ECParameters named-curve (all 65536 groups) and explicit-prime (seven u8-prefixed fields 0..255), ServerECDHParams, ECPoint, both DigitallySigned forms (all 256x256 algorithm pairs; signature lengths 0..65535), each followed by arbitrary trailing bytes; every strict prefix; all 254 other curve types; every derive-generated entry point (parse / parse_be / parse_le) of NamedGroup, ECCurveType, ECParametersContent, ECParameters, ServerECDHParams, ECPoint and ServerDHParams on the same encodings (all 65536 groups, all 256 curve types, the generated explicit-prime and DH values); parse_content_and_signature with both flag values and three content parsers on inputs where the two signature forms decode differently. distinct_nontrivial = distinct (family, structure, length classes, flag, outcome) tuples";
+pub const RULE: &str = "reference encodings of ServerDHParams (field lengths 0,1,255,256,65535 and random), ECParameters named-curve (all 65536 groups) and explicit-prime (seven u8-prefixed fields 0..255), ServerECDHParams, ECPoint, both DigitallySigned forms (all 256x256 algorithm pairs; signature lengths 0..65535), each followed by arbitrary trailing bytes, and by trailing data sized so that at every internal offset the bytes still available are 65536 + {0,1,7}; every strict prefix; degenerate values a key-agreement layer would reject (all-zero / all-ones / low-order public values of x25519, x448 and the NIST curves at lengths l-1, l, l+1; DH public 0, 1, p-1, p, p+1, generators 0, 1, empty fields); all 254 other curve types; every derive-generated entry point (parse / parse_be / parse_le) of NamedGroup, ECCurveType, ECParametersContent, ECParameters, ServerECDHParams, ECPoint and ServerDHParams on the same encodings (all 65536 groups, all 256 curve types, the generated explicit-prime and DH values); parse_content_and_signature with both flag values and three content parsers on inputs where the two signature forms decode differently. distinct_nontrivial = distinct (family, structure, length classes, flag, outcome) tuples";
 pub const ASSUMPTIONS: &[&str] = &["error kinds are not judged"];
 
 macro_rules! rt {
@@ -317,6 +317,123 @@ pub fn run(ctx: &mut Ctx) {
                 no_value(ctx, "parse_digitally_signed_old", "prefix", &e[..cut], &parse_digitally_signed_old(&e[..cut]));
             }
         }
+    });
+
+    // ------------------------------------------------ values a key-agreement layer would call degenerate (all-zero / all-ones /
+    // low-order public values on the well-known groups, lengths around the group's size; DH public values 0, 1,
+    // p-1, p, p+1; generators 0, 1; empty fields): the decoder's job is to return what was encoded
+    ctx.floor("special-values.cases", 400);
+    ctx.sweep("special-values", 1, |ctx, _| {
+        let groups: [(u16, usize); 9] = [(0x001d, 32), (0x001e, 56), (0x0017, 65), (0x0018, 97), (0x0019, 133), (0x0016, 65), (0x0100, 256), (0x001a, 65), (0x1234, 10)];
+        for (g, l) in groups {
+            let mut pts: Vec<Vec<u8>> = Vec::new();
+            for n in [l, l - 1, l + 1, 1, 0] {
+                pts.push(vec![0u8; n]);
+                pts.push(vec![0xffu8; n]);
+                if n > 1 {
+                    let mut a = vec![0u8; n]; a[0] = 1; pts.push(a);
+                    let mut b = vec![0u8; n]; b[n - 1] = 1; pts.push(b);
+                    let mut c = vec![0u8; n]; c[0] = 4; pts.push(c);
+                    let mut d = vec![0xffu8; n]; d[0] = 0xed; d[n - 1] = 0x7f; pts.push(d);
+                    let mut e = vec![0xffu8; n]; e[0] = 0xec; e[n - 1] = 0x7f; pts.push(e);
+                }
+            }
+            for pt in pts {
+                if pt.len() > 255 {
+                    continue;
+                }
+                let v = AEcdh { params: AEcParams::Named(g), public: pt.clone() };
+                ctx.count("special-values.cases");
+                rt!(ctx, "parse_ecdh_params", enc(|w| v.enc(w)), &[0x77u8][..], parse_ecdh_params, v.expected(), (g, lc(pt.len())));
+                for flag in [true, false] {
+                    let sg = ASig { alg: if flag { Some((4, 3)) } else { None }, data: vec![9, 9, 9] };
+                    let input = enc(|w| { v.enc(w); sg.enc(w) });
+                    let r2 = parse_content_and_signature(&input, parse_ecdh_params, flag);
+                    ctx.eval();
+                    if !matches!(&r2, Ok((rem, (cv, sv))) if rem.is_empty() && veq(cv, &v.expected()) && veq(sv, &sg.expected())) {
+                        ctx.violation("c13:parse_content_and_signature:ecdh:special-values".into(), json!({"group": g, "public_len": pt.len(), "flag": flag, "outcome": classify(&r2).show(), "input_hex": hex_short(&input)}));
+                    }
+                }
+            }
+        }
+        // finite-field DH
+        let p_vals: Vec<Vec<u8>> = vec![vec![], vec![0], vec![1], vec![2], vec![0xff; 8], { let mut p = vec![0xc3u8; 256]; p[255] = 0x47; p }, { let mut p = vec![0xc3u8; 256]; p[255] = 0x46; p }];
+        for p in &p_vals {
+            let mut pm1 = p.clone();
+            if let Some(l) = pm1.last_mut() { *l = l.wrapping_sub(1); }
+            let mut pp1 = p.clone();
+            if let Some(l) = pp1.last_mut() { *l = l.wrapping_add(1); }
+            let gs: Vec<Vec<u8>> = vec![vec![], vec![0], vec![1], vec![2], pm1.clone()];
+            let ys: Vec<Vec<u8>> = vec![vec![], vec![0], vec![1], pm1.clone(), p.clone(), pp1.clone(), vec![0u8; p.len()], vec![0xffu8; p.len()]];
+            for g in &gs {
+                for y in &ys {
+                    let v = ADh { p: p.clone(), g: g.clone(), ys: y.clone() };
+                    ctx.count("special-values.cases");
+                    rt!(ctx, "parse_dh_params", enc(|w| v.enc(w)), &[0x77u8, 0x88][..], parse_dh_params, v.expected(), (lc(p.len()), lc(g.len()), lc(y.len())));
+                }
+            }
+        }
+    });
+
+    // ------------------------------------------------ trailing data sized so that, at EVERY offset inside the structure, the
+    // number of bytes still available is congruent to 0, 1 or 7 modulo 2^16 (availability computed in a
+    // narrower integer type): value and remainder must be what they are without the trailing data
+    let n = ctx.tier.pick(160, 1600);
+    ctx.floor("wrap-trailing.calls", 20_000);
+    ctx.family("wrap-trailing", n, |ctx, case: &mut Case| {
+        let r = &mut case.rng;
+        let which = case.idx % 6;
+        let mut tiny = |r: &mut Rng| { let n = r.usize(0, 24); r.bytes(n) };
+        let (enc_b, name): (Vec<u8>, &'static str) = match which {
+            0 => { let v = ADh { p: tiny(r), g: tiny(r), ys: tiny(r) }; (enc(|w| v.enc(w)), "parse_dh_params") }
+            1 | 2 => { let mut v = gen::ecdh(r); if which == 2 { v.params = AEcParams::Named(r.u16()); } (enc(|w| v.enc(w)), "parse_ecdh_params") }
+            3 => { let v = gen::ecdh(r); (enc(|w| v.params.enc(w)), "parse_ec_parameters") }
+            4 => { let v = ASig { alg: Some((r.u8(), r.u8())), data: tiny(r) }; (enc(|w| v.enc(w)), "parse_digitally_signed") }
+            _ => { let v = ASig { alg: None, data: tiny(r) }; (enc(|w| v.enc(w)), "parse_digitally_signed_old") }
+        };
+        let e = enc_b.len();
+        if e > 1200 {
+            return;
+        }
+        let mut buf = enc_b.clone();
+        buf.resize(e + 65536 + 16, 0x5A);
+        // canonical fingerprint of the value parsed from the encoding alone
+        let fp = |i: &[u8]| -> Option<(Vec<u8>, usize)> {
+            match which {
+                0 => parse_dh_params(i).ok().map(|(rem, v)| (crate::visit::canon_of(&v), rem.len())),
+                1 | 2 => parse_ecdh_params(i).ok().map(|(rem, v)| (crate::visit::canon_of(&v), rem.len())),
+                3 => parse_ec_parameters(i).ok().map(|(rem, v)| (crate::visit::canon_of(&v), rem.len())),
+                4 => parse_digitally_signed(i).ok().map(|(rem, v)| (crate::visit::canon_of(&v), rem.len())),
+                _ => parse_digitally_signed_old(i).ok().map(|(rem, v)| (crate::visit::canon_of(&v), rem.len())),
+            }
+        };
+        let base = match ctx.guarded(name, &enc_b, || fp(&enc_b)) {
+            Some(Some((c, 0))) => c,
+            _ => {
+                ctx.unjudged("wrap-trailing: reference encoding alone not accepted (judged by the round-trip families)");
+                return;
+            }
+        };
+        for o in 0..=e {
+            for d in [0usize, 1, 7] {
+                let t = 65536 - (e - o) + d; // bytes available at offset o: 65536 + d
+                let input = &buf[..e + t];
+                if let Some(got) = ctx.guarded(name, &enc_b, || fp(input)) {
+                    ctx.eval();
+                    ctx.count("wrap-trailing.calls");
+                    if got.as_ref().map(|(c, rl)| *c == base && *rl == t) != Some(true) {
+                        ctx.violation(
+                            format!("c13:{}:trailing-data-changes-the-result", name),
+                            json!({"parser": name, "encoding_len": e, "trailing_len": t, "offset_with_65536_plus_d_bytes_left": o, "d": d,
+                                   "result": match &got { None => "rejected".to_string(), Some((c, rl)) => format!("value {} remainder {}", if *c == base { "same" } else { "DIFFERENT" }, rl) },
+                                   "input_hex": hex_short(&enc_b)}),
+                        );
+                        return;
+                    }
+                }
+            }
+        }
+        ctx.shape(&("wrap-trailing", which, lc(e)));
     });
 
 
